@@ -337,6 +337,17 @@ def run_lin(c, u):
                             c.fail('C07|logdet|value|first_bad_order=%d' % d, dict(case, direction=p, A0=A[0, p].tolist()),
                                    {'order': d, 'got': float(ld[d, k]), 'expected': float(yr[d, 0])})
                             break
+                        # the same direction ALONE (a structure test on the base point - symmetric, positive definite - can only
+                        # take effect when every direction of the call passes it)
+                        l1 = algopy.logdet(UTPM(A[:, p:p + 1].copy())).data[:, 0]
+                        c.out['evals'] += 1
+                        e3 = np.abs(l1 - np.asarray(yr[:, 0], dtype=float))
+                        if not np.all(e3 <= t2):
+                            d = int(np.argmax(~(e3 <= t2)))
+                            sym0 = bool(np.array_equal(A[0, p], A[0, p].T))
+                            c.fail('C07|logdet|single direction|%s base point|first_bad_order=%d' % ('symmetric' if sym0 else 'general', d),
+                                   dict(case, direction=p, A0=A[0, p].tolist()), {'order': d, 'got': float(l1[d]), 'expected': float(yr[d, 0])})
+                            break
         except Exception as ex:
             c.fail('C07|%s|raises|N=%d' % (fn, N), case, {'error': '%s: %s' % (type(ex).__name__, str(ex)[:160])})
     c.out['samples'] = [{'function': fn, 'N': N, 'base_matrices_in_unit': P, 'example_base': bases[P // 3].tolist(), 'D': DMENU[tier]}]
